@@ -232,6 +232,9 @@ class Prov:
                 elif k == "Aggregate":
                     for o in rv["ops"]:
                         new |= self.op_tags(b, o)
+                    if self.mark_inner and rv.get("agg") == "Adt" and (rv.get("adt") == "serde_json::Value" or self._is_local_adt(rv.get("adt") or "")):
+                        # (C01 structural descent only) a tree built around parts of a parameter may be larger than the parameter
+                        new = {t if ".built" in t else t.split(".in")[0] + ".built" for t in new}
                     if rv.get("agg") == "Closure":
                         ck = rv["closure"]
                         for i, o in enumerate(rv["ops"]):
